@@ -1,6 +1,7 @@
 CONSTANTS
-  SelfPath = TRUE
+  SelfPath = FALSE
 SPECIFICATION CSpec
+INVARIANT CompileOK
 INVARIANT Partial
 INVARIANT FixedPoint
 INVARIANT NoFireOverridden
